@@ -514,6 +514,14 @@ class TLSMemoryBIOProtocol(ProtocolWrapper):
         if self._lostTLSConnection:
             return
 
+        if self._appSendBuffer:
+            # Earlier writes are still waiting for the handshake to complete
+            # (for example when the application writes from
+            # handshakeCompleted); keep the bytes in the order they were
+            # written.
+            self._bufferedWrite(bytes)
+            return
+
         # A TLS payload is 16kB max
         bufferSize = 2**14
 
@@ -799,6 +807,13 @@ class BufferingTLSTransport(TLSMemoryBIOProtocol):
     def loseConnection(self) -> None:
         self._aggregator.flush()
         super().loseConnection()
+
+    def unregisterProducer(self) -> None:
+        # If loseConnection() was called while the producer was registered,
+        # unregistering it starts the TLS shutdown: whatever the producer
+        # wrote last must not be left behind in the aggregator.
+        self._aggregator.flush()
+        super().unregisterProducer()
 
 
 class TLSMemoryBIOFactory(WrappingFactory):
